@@ -51,7 +51,7 @@ func verifIOName() string {
 	case 1:
 		return verifString(1)
 	case 2:
-		return verifString(2)
+		return verifString(verifBound(2, 3))
 	case 3:
 		return "-"
 	case 4:
